@@ -137,8 +137,9 @@ def pipeline(name, gen_cmd, stdin_path=None):
 class Tally:
     """Aggregates responses of the harness|driver pipeline."""
 
-    def __init__(self, pid, known):
+    def __init__(self, pid, known, only_oracles=None):
         self.pid = pid
+        self.only_oracles = only_oracles
         self.known = known          # list of known-finding dicts for this property
         self.known_classes = {k["class"] for k in known if k.get("status", "open") == "open"}
         self.evaluations = 0
@@ -190,7 +191,8 @@ class Tally:
                 classes = r.get("class", [])
                 for c in classes:
                     self.class_hist[c] = self.class_hist.get(c, 0) + 1
-                bad = [k for k, v in (r.get("oracle_impl") or {}).items() if v is False]
+                bad = [k for k, v in (r.get("oracle_impl") or {}).items() if v is False
+                       and (self.only_oracles is None or k in self.only_oracles)]
                 if any(v is False for v in (r.get("oracle_model") or {}).values()):
                     self.model_oracle_fail += 1
                 if not r.get("agree", True):
